@@ -201,10 +201,17 @@ func haltCause(w *World, site string) string {
 	if site == "overflow" && acceptedOrdersOverflowSupply(w) {
 		return "/accepted-orders-exceed-256-bit-supply"
 	}
-	if w.M != nil && (w.M.Ent.Denom != w.T.Knobs.Ent.Denom || w.M.Ent.DenomChanged) {
+	denom := w.M != nil && (w.M.Ent.Denom != w.T.Knobs.Ent.Denom || w.M.Ent.DenomChanged)
+	gov := govBelowDeposits(w) || govSpendingProposal(w)
+	// both circumstances may hold in one run (one proposal can change the denomination and pay out of
+	// the governance account): the site of the panic tells which of the two it is
+	if gov && (site == "insufficient-funds" || strings.HasPrefix(site, "invariant-gov")) {
+		return "/gov-account-spent-by-proposal"
+	}
+	if denom {
 		return "/enterprise-denom-changed-by-governance"
 	}
-	if govBelowDeposits(w) || govSpendingProposal(w) {
+	if gov {
 		return "/gov-account-spent-by-proposal"
 	}
 	return ""
